@@ -548,6 +548,10 @@ func profilesFamily(full bool) Family {
 			l.Files[fP].Deps = append(l.Files[fP].Deps, Dep{G: "g", A: "m"})
 			l.Files[fP].Mgmt = append(l.Files[fP].Mgmt, Dep{G: "g", A: "m", V: "mp"})
 		}),
+		opt("twice-in-profile", func(l *Lineage) {
+			x := &l.Files[fP].Profiles[0]
+			x.Deps = append(x.Deps, Dep{G: "g", A: "dd", V: "1.5"}, Dep{G: "g", A: "k", V: "1"}, Dep{G: "g", A: "dd", V: "2.0", Scope: "test"})
+		}),
 		opt("no-props", func(l *Lineage) { l.Files[fP].Profiles[0].Props = nil }),
 		opt("new-prop", func(l *Lineage) {
 			x := &l.Files[fP].Profiles[0]
